@@ -197,14 +197,17 @@ pub fn gen(seed: u64, tier: Tier, k: u64) -> Value {
         }
         _ => {
             // array keys sharing prefixes shorter / equal / longer than the inline prefix, with 0x00 and 0xff
-            let (max, alpha) = match rng.below(5) {
+            let (max, alpha) = match rng.below(6) {
                 0 => (6, 2),
                 1 => (10, 4),
                 2 => (prefix as u32 + 3, 2),
                 3 => (40, 4),
-                _ => (24, 0),
+                4 => (24, 0),
+                // long keys around the 256 / 512 length boundaries sharing everything but their last bytes
+                _ => (0, 0),
             };
-            common.push(PDef { name: "k".into(), kind: PKind::Array { prefix, store: 0 }, col: Col::Arr { max, alpha } });
+            let col = if max == 0 { Col::ArrLong } else { Col::Arr { max, alpha } };
+            common.push(PDef { name: "k".into(), kind: PKind::Array { prefix, store: 0 }, col });
             sort = vec!["k".into()];
         }
     }
